@@ -8,6 +8,10 @@ Functions under contract (real source, re-read on every run):
   construction sites (ppt `_build_slides_from_text_blocks`, `_parse_ppt_document`,
   rtf `flush_page`) by symbolic execution, the remaining construction sites and the
   heading-section iterators (doc/docx/odt) by AST dataflow obligations (EXTRA).
+  Round 7, verified on their real bodies (were opaque / assumed / without contract): `PptSlideContent.text_combined`,
+  `OdpSlide.text_combined`, `PptxSlide.get_text` (the unit text of ppt / odp / pptx slides, composed of title / body / other texts,
+  formulas, image captions), xlsx `_is_cell_non_empty` (the predicate of the row / column trimming contracts),
+  pptx `_PptxContext._load_xml_files` and the property `_PptxContext.slide_order` (the slide order read_pptx walks is the computed one).
 
 The yielded units are observed exactly as the property says:
 `u.get_metadata().unit_number` and `u.get_text()` (the real accessor methods are
@@ -935,7 +939,7 @@ def parse_spine_contract():
 
 # ----------------------------------------------- construction site: xlsx row trimming --
 XLSX = "sharepoint2text/parsing/extractors/ms_modern/xlsx_extractor.py"
-CELL_NE = fun("xlsx_cell_non_empty", ext_sort("XCell"), B)      # _is_cell_non_empty(value) (assumed pure; its definition is C02's)
+CELL_NE = fun("xlsx_cell_non_empty", ext_sort("XCell"), B)      # _is_cell_non_empty(cell) for a cell of unknown dynamic type (round 7: the function is verified per dynamic type, see cell_non_empty_contract)
 
 
 def any_true(seq: VSeq):
@@ -2054,7 +2058,13 @@ TRUSTED = ["observation of a unit = (get_metadata().unit_number, get_text()) com
 ASSUMED_MODELS = ["xml.etree Element.find/findall/get (contracts/etree_model.py: direct children with a tag, in document order)",
                   "re finditer / Match.start / Match.end (contracts/c16_exec.py: ordered, non-overlapping, non-empty matches inside the data)",
                   "str.strip (uninterpreted)", "str.join over a symbolic-length sequence (uninterpreted function of separator, element function, length)",
-                  "PptSlideContent.text_combined / OdpSlide.text_combined / PptxSlide.get_text / XlsSheet.get_table: pure functions of the instance"]
+                  "XlsSheet.get_table: pure function of the instance (purity obligation only; feeds the unit's tables, not its text or number)",
+                  "call-site names `PptSlideContent.text_combined()(slide)`, `OdpSlide.text_combined()(slide)`, `PptxSlide.get_text()(slide, flag)` in the "
+                  "iterate_units specs: functions of the instance (and flag) alone -- no longer an assumption about the code: implied by the "
+                  "VERIFIED contracts of these three functions (round 7), which give the value as a join over the instance's fields",
+                  "zipfile / XML parser behind ZipContext.read_xml_root (returns some element or raises), used by _PptxContext._load_xml_files",
+                  "call-site view of _PptxContext._compute_slide_order inside _load_xml_files / slide_order: returns a finite list of str (its "
+                  "annotation); that its content is the sldIdLst document order is the dataflow construction obligation, not assumed here"]
 NOT_CLAIMED = ["coverage of the body by the heading-section units: discharged only as the one-paragraph step contract of OdtContent.iterate_units "
                "(contracts/c03_sections.py::odt_step); for doc / docx (and the end-to-end effect for odt) there is only the BOUNDED native "
                "section scope, and docx documents with body text before the first heading or with a heading without text are recorded "
